@@ -44,7 +44,7 @@ type c20gen struct {
 var c20ws = []string{"", "", " ", "\n", "\n\n", "\r\n", "\t", "\n  ", " \n", "\n\t\n"}
 
 func (g *c20gen) ws() {
-	g.sb.WriteString(c20ws[drawInt(g.t, 0, len(c20ws)-1, "ws")])
+	g.sb.WriteString(c20ws[drawIdx(g.t, len(c20ws), "ws")])
 }
 
 func (g *c20gen) str(s string) {
@@ -115,7 +115,7 @@ func (g *c20gen) value(v V, depth int) (pendingDelimiter bool) {
 				g.pos = g.sb.Len()
 				g.depthAt = depth
 				g.injected = true
-				g.sb.WriteString(badKeyStart[drawInt(g.t, 0, len(badKeyStart)-1, "bad")])
+				g.sb.WriteString(badKeyStart[drawIdx(g.t, len(badKeyStart), "bad")])
 			}
 			g.str(p.K)
 			g.ws()
@@ -123,7 +123,7 @@ func (g *c20gen) value(v V, depth int) (pendingDelimiter bool) {
 				g.pos = g.sb.Len()
 				g.depthAt = depth
 				g.injected = true
-				g.sb.WriteString(badAfterKey[drawInt(g.t, 0, len(badAfterKey)-1, "bad")])
+				g.sb.WriteString(badAfterKey[drawIdx(g.t, len(badAfterKey), "bad")])
 			}
 			g.sb.WriteByte(':')
 			g.ws()
@@ -138,7 +138,7 @@ func (g *c20gen) value(v V, depth int) (pendingDelimiter bool) {
 				g.pos = g.sb.Len()
 				g.depthAt = depth
 				g.injected = true
-				g.sb.WriteString(badAfterVal[drawInt(g.t, 0, len(badAfterVal)-1, "bad")])
+				g.sb.WriteString(badAfterVal[drawIdx(g.t, len(badAfterVal), "bad")])
 				g.ws()
 			}
 			if i+1 < len(v.O) {
@@ -151,7 +151,7 @@ func (g *c20gen) value(v V, depth int) (pendingDelimiter bool) {
 		g.sb.WriteByte('}')
 	default:
 		if id == g.target && (g.kind == 1 || g.kind == 2) && !g.injected {
-			g.sb.WriteString(invalidLiterals[drawInt(g.t, 0, len(invalidLiterals)-1, "lit")])
+			g.sb.WriteString(invalidLiterals[drawIdx(g.t, len(invalidLiterals), "lit")])
 			return true
 		}
 		g.scalar(v)
@@ -259,11 +259,11 @@ func GenC20(t *rapid.T) *C20Case {
 			present = append(present, k)
 		}
 	}
-	kind := present[drawInt(t, 0, len(present)-1, "kind")]
+	kind := present[drawIdx(t, len(present), "kind")]
 	// prefer deep sites: draw two, keep the later (deeper in pre-order on average)
 	cands := kinds[kind]
-	si := drawInt(t, 0, len(cands)-1, "site")
-	if sj := drawInt(t, 0, len(cands)-1, "site2"); sj > si {
+	si := drawIdx(t, len(cands), "site")
+	if sj := drawIdx(t, len(cands), "site2"); sj > si {
 		si = sj
 	}
 	g := &c20gen{t: t, target: cands[si].id, kind: kind, rawNL: drawInt(t, 0, 9, "rawnl") == 0}
@@ -272,7 +272,7 @@ func GenC20(t *rapid.T) *C20Case {
 		parts := []string{"garbage", "\n", "\n\n", " ", "x=1;", "\r\n", "// comment\n", "\t", "é\n"}
 		n := drawInt(t, 1, 5, "np")
 		for i := 0; i < n; i++ {
-			g.sb.WriteString(parts[drawInt(t, 0, len(parts)-1, "pp")])
+			g.sb.WriteString(parts[drawIdx(t, len(parts), "pp")])
 		}
 	}
 	g.value(root, 0)
